@@ -72,8 +72,12 @@ def main():
             row["demo_clean"] = "pass" if rc_clean == 0 else f"FAIL({rc_clean})"
             row["demo_changed"] = "fails" if rc_mut != 0 else "PASSES"
             if with_tests:
-                rc_t, out_t = sh(["timeout", "900", PY, "-m", "pytest", "-q", "-p", "no:cacheprovider", "--timeout=900",
-                                  "tests"], env=env, cwd=wt)
+                for attempt in range(4):     # the suite binds random ports: retry on collisions
+                    rc_t, out_t = sh(["timeout", "900", PY, "-m", "pytest", "-q", "-p", "no:cacheprovider",
+                                      "--timeout=900", "tests"], env=env, cwd=wt)
+                    if rc_t == 0 or not ("Address already in use" in out_t or "Permission denied" in out_t
+                                         or "OSError" in out_t):
+                        break
                 row["tests"] = "pass" if rc_t == 0 else "FAIL"
                 if rc_t:
                     row["tests_tail"] = out_t[-400:]
@@ -100,6 +104,17 @@ def main():
             shutil.rmtree(wt, ignore_errors=True)
         results.append(row)
         print(json.dumps(row))
+        # record what was run next to the seeded change
+        if "--record" in sys.argv and row.get("status"):
+            meta["verified"] = {
+                "demo_on_clean_tree": row.get("demo_clean"), "demo_with_change": row.get("demo_changed"),
+                "existing_tests_with_change": row.get("tests", "not run in this invocation"),
+                "check_run": f"VERIF_REPO=<scratch worktree with the patch> run_check.py {prop} --tier quick --budget {budget} --seed 21",
+                "caught_by": row.get("caught_by"), "first_violation": row.get("violation"),
+                "seconds_to_violation": row.get("seconds"), "status": row["status"],
+            }
+            with open(os.path.join(d, "meta.json"), "w") as f:
+                json.dump(meta, f, indent=1)
     n = sum(1 for r in results if r.get("status") == "caught")
     print(f"{n}/{len(results)} seeded changes caught by the check of their own property")
     return 0 if n == len(results) else 1
